@@ -214,10 +214,6 @@ func (f *STFS) Initialize(rootProposal string, rootPerm os.FileMode) (root strin
 	existingRoot, err := f.metadata.Metadata.GetRootPath(context.Background())
 	if err == config.ErrNoRootDirectory {
 		mkdirRoot := func() (string, error) {
-			if err := f.readOps.GetBackend().CloseReader(); err != nil {
-				return "", err
-			}
-
 			if f.readOnly {
 				return "", os.ErrPermission
 			}
@@ -257,6 +253,11 @@ func (f *STFS) Initialize(rootProposal string, rootPerm os.FileMode) (root strin
 
 			f.onHeader,
 		); err != nil {
+			// Only close the reader if we got one
+			if err := f.readOps.GetBackend().CloseReader(); err != nil {
+				return "", err
+			}
+
 			return mkdirRoot()
 		}
 
